@@ -120,6 +120,11 @@ class Kernel:
         self.gap_mean = sched.get("gap_mean", 50)
         self.trace_files = frozenset(trace_files)
         self.trace_opcodes = sched.get("opcodes", False)
+        # "hot" source file: its lines count hot_weight times towards the next pre-emption, so that the short
+        # critical sections of one module are cut open far more often than the rest of the code
+        hot = sched.get("hot")
+        self.hot_files = frozenset(f for f in self.trace_files if hot and f.endswith("/" + hot))
+        self.hot_weight = int(sched.get("hot_weight", 8))
         self.handoff = bool(sched.get("handoff"))  # on lock release prefer a thread that was waiting for that lock
         self.delay_enabled = bool(sched.get("delay"))
         self.delay_target = None  # thread kind currently starved
@@ -441,13 +446,13 @@ class Kernel:
                 if self.aborting:
                     raise SimAbort()
 
-    def line_point(self):
+    def line_point(self, weight=1):
         """pre-emption opportunity at a traced source line (no time cost)."""
         me = self.current
         if me is None or me.no_preempt or self.aborting or self.finished:
             return
         if self.pct_points:
-            self.pct_clock += 1
+            self.pct_clock += weight
             if self.pct_clock >= self.pct_points[0]:
                 self.pct_points.pop(0)
                 self.pct_low -= 1
@@ -465,8 +470,8 @@ class Kernel:
                         raise SimAbort()
             return
         if self.gap > 0:
-            self.gap -= 1
-            if self.gap == 0:
+            self.gap -= weight
+            if self.gap <= 0:
                 self.gap = self.S.gap(self.gap_mean)
                 others = [t for t in self.threads if t is not me and self._is_runnable(t)]
                 if others:
@@ -549,8 +554,15 @@ class Kernel:
         if code.co_filename in self.trace_files and code.co_name != "__del__":
             if self.trace_opcodes:
                 frame.f_trace_opcodes = True
+            if code.co_filename in self.hot_files:
+                return self._local_trace_hot
             return self._local_trace
         return None
+
+    def _local_trace_hot(self, frame, event, arg):
+        if event == "line":
+            self.line_point(self.hot_weight)
+        return self._local_trace_hot
 
     def _local_trace(self, frame, event, arg):
         if event == "line" or event == "opcode":
